@@ -4,7 +4,7 @@ TIER=${1:-quick}
 cd "$(dirname "$0")/.."
 (cd lean && lake build MotoModel motodrv >/dev/null 2>&1)
 for p in C01 C02 C03 C04 C05 C06 C07 C08 C09 C10 C11 C12 C13 C14 C15 C16 C17 C18 C19 C20; do
-  ( ./bin/check $p $TIER > /tmp/runall_$p.log 2>&1; echo "$p rc=$? $(grep -E 'VIOLATION|KNOWN' /tmp/runall_$p.log | head -2 | tr '\n' ' ') $(tail -1 /tmp/runall_$p.log)" ) &
+  ( ./bin/check $p $TIER > /tmp/runall_$p.log 2>&1; rc=$?; echo "$p rc=$rc $(grep -E 'VIOLATION|KNOWN' /tmp/runall_$p.log | head -2 | tr '\n' ' ') $(tail -1 /tmp/runall_$p.log)"; if [ $rc -ge 2 ]; then cp /tmp/runall_$p.log /tmp/failed_runall_$p.log; fi ) &
   if [ $(jobs | wc -l) -ge 6 ]; then wait; fi
 done
 wait
